@@ -1,2 +1,247 @@
-(* Styler: model definitions (stub, to be filled in). *)
-From Klog Require Import Base.Prelude.
+(* Styler: model of klog/app/cli/terminalformat/{style.go, colour_theme.go, util.go} (C18).
+   Definitions only.
+
+   - a [theme] is the data a Go [Styler] carries besides its props: reset sequence, foreground and
+     background prefix, colour suffix, underline and bold sequences, and the colour-code map (a Go
+     map[Colour]string; a missing key reads as "" exactly like the Go map);
+   - [seqs], [format], [format_and_restore] are Styler.seqs / Format / FormatAndRestore;
+   - [strip] is StripAllAnsiSequences = regexp `\x1b\[[\d;]+m`, ReplaceAllString(text, ""):
+     leftmost, non-overlapping; RE2's \d is ASCII 0-9 only; the pattern has no alternatives, and `m`
+     is not in the class, so "the match at a position" is unique: ESC [ (one or more of 0-9 ;) m;
+   - documents are trees [piece]; [render th outer x] builds the output the way the Go code nests
+     Format (top level) and FormatAndRestore (inside another style). *)
+From Klog Require Import Base.Prelude Base.Utf8.
+Open Scope N_scope.
+
+(* ---------- StripAllAnsiSequences ---------- *)
+
+Definition c_esc : N := 27.
+Definition c_lbr : N := 91.   (* [ *)
+Definition c_m : N := 109.    (* m *)
+Definition c_semi : N := 59.  (* ; *)
+
+Definition is_param (c : N) : bool := is_digit c || (c =? c_semi).
+
+(* length of the maximal run of [0-9;] at the head of s *)
+Fixpoint params_len (s : bytes) : nat :=
+  match s with
+  | c :: r => if is_param c then S (params_len r) else O
+  | [] => O
+  end.
+
+(* length of the regexp match that starts at the head of s; 0 when there is none *)
+Definition sgr_len (s : bytes) : nat :=
+  match s with
+  | e :: b :: r =>
+    if (e =? c_esc) && (b =? c_lbr) then
+      let n := params_len r in
+      if Nat.ltb 0 n && (match nth_error r n with Some c => c =? c_m | None => false end)
+      then (3 + n)%nat else O
+    else O
+  | _ => O
+  end.
+
+(* one left-to-right pass: [skip] bytes of a match that started earlier are still to be dropped;
+   otherwise, if a match starts here drop it, else copy the byte *)
+Fixpoint strip_aux (skip : nat) (s : bytes) : bytes :=
+  match s with
+  | [] => []
+  | c :: r =>
+    match skip with
+    | S k => strip_aux k r
+    | O => match sgr_len s with
+           | S n => strip_aux n r
+           | O => c :: strip_aux O r
+           end
+    end
+  end.
+
+Definition strip (s : bytes) : bytes := strip_aux O s.
+
+(* utf8.RuneCountInString *)
+Definition rune_count (s : bytes) : nat := length (utf8_decode s).
+
+(* the number of "visible characters" of the property: runes after stripping *)
+Definition vis_len (s : bytes) : nat := rune_count (strip s).
+
+(* ---------- StyleProps, Styler ---------- *)
+
+(* Colour: 0 = unspecified, 1 TEXT, 2 TEXT_SUBDUED, 3 TEXT_INVERSE, 4 GREEN, 5 RED, 6 YELLOW,
+   7 BLUE_DARK, 8 BLUE_LIGHT, 9 PURPLE *)
+Record props := mk_props { p_color : N; p_background : N; p_bold : bool; p_underlined : bool }.
+
+Definition no_props : props := mk_props 0 0 false false.
+
+Record theme := mk_theme {
+  th_codes : list (N * bytes);
+  th_reset : bytes;
+  th_fg_prefix : bytes;
+  th_bg_prefix : bytes;
+  th_suffix : bytes;
+  th_underlined : bytes;
+  th_bold : bytes
+}.
+
+(* s.colourCodes[c]: "" for a missing key *)
+Fixpoint lookup (k : N) (l : list (N * bytes)) : bytes :=
+  match l with
+  | [] => []
+  | (k', v) :: r => if k =? k' then v else lookup k r
+  end.
+
+Definition is_nil {A} (l : list A) : bool := match l with [] => true | _ => false end.
+
+Definition colour_seq (th : theme) (prefix : bytes) (c : N) : bytes :=
+  if negb (c =? 0) && negb (is_nil (lookup c (th_codes th)))
+  then prefix ++ lookup c (th_codes th) ++ th_suffix th
+  else [].
+
+(* Styler.seqs *)
+Definition seqs (th : theme) (p : props) : bytes :=
+  th_reset th
+  ++ colour_seq th (th_fg_prefix th) (p_color p)
+  ++ colour_seq th (th_bg_prefix th) (p_background p)
+  ++ (if p_underlined p then th_underlined th else [])
+  ++ (if p_bold p then th_bold th else []).
+
+(* Styler.Format *)
+Definition format (th : theme) (p : props) (text : bytes) : bytes :=
+  seqs th p ++ text ++ th_reset th.
+
+(* Styler.FormatAndRestore *)
+Definition format_and_restore (th : theme) (p : props) (text : bytes) (prev : props) : bytes :=
+  format th p text ++ seqs th prev.
+
+(* ---------- the four themes of colour_theme.go ---------- *)
+
+Definition no_colour : theme := mk_theme [] [] [] [] [] [] [].
+
+Definition theme_256 (cc : list (N * bytes)) : theme :=
+  mk_theme cc (c_esc :: b!"[0m") (c_esc :: b!"[38;5;") (c_esc :: b!"[48;5;") b!"m"
+           (c_esc :: b!"[4m") (c_esc :: b!"[1m").
+
+Definition theme_8 (cc : list (N * bytes)) : theme :=
+  mk_theme cc (c_esc :: b!"[0m") (c_esc :: b!"[3") (c_esc :: b!"[4") b!"m"
+           (c_esc :: b!"[4m") (c_esc :: b!"[1m").
+
+Definition dark : theme :=
+  theme_256 [(1, b!"015"); (2, b!"249"); (3, b!"000"); (4, b!"120"); (5, b!"167");
+             (7, b!"117"); (8, b!"027"); (9, b!"213"); (6, b!"221")].
+
+Definition light : theme :=
+  theme_256 [(1, b!"000"); (2, b!"237"); (3, b!"015"); (4, b!"028"); (5, b!"124");
+             (7, b!"025"); (8, b!"033"); (9, b!"055"); (6, b!"208")].
+
+Definition basic : theme :=
+  theme_8 [(1, []); (2, []); (3, b!"0"); (4, b!"2"); (5, b!"1");
+           (7, b!"4"); (8, b!"6"); (9, b!"5"); (6, b!"3")].
+
+(* NewStyler: an unknown name panics *)
+Definition new_styler (name : bytes) : outcome theme :=
+  if bytes_eqb name b!"no_colour" then Ok no_colour
+  else if bytes_eqb name b!"dark" then Ok dark
+  else if bytes_eqb name b!"light" then Ok light
+  else if bytes_eqb name b!"basic" then Ok basic
+  else Crash CExplicitPanic.
+
+(* ---------- documents ---------- *)
+
+Inductive piece :=
+| Plain (t : bytes)
+| Styled (p : props) (kids : list piece).
+
+(* [outer] is the style of the enclosing piece: None at top level (Styler.Format),
+   Some q inside a piece styled q (Styler.FormatAndRestore(text, q)) *)
+Fixpoint render (th : theme) (outer : option props) (x : piece) : bytes :=
+  match x with
+  | Plain t => t
+  | Styled p kids =>
+    let body := (fix go (l : list piece) : bytes :=
+                   match l with [] => [] | k :: r => render th (Some p) k ++ go r end) kids in
+    match outer with
+    | None => format th p body
+    | Some q => format_and_restore th p body q
+    end
+  end.
+
+Definition render_list (th : theme) (outer : option props) (l : list piece) : bytes :=
+  flat_map (render th outer) l.
+
+(* a whole output: a sequence of top-level pieces *)
+Definition render_doc (th : theme) (doc : list piece) : bytes := render_list th None doc.
+
+(* ---------- style boundaries ---------- *)
+
+(* The output seen as a flat sequence of user/program text and style marks. *)
+Inductive mark := MSeqs (p : props) | MReset.
+Inductive tok := T (t : bytes) | M (m : mark).
+
+Definition mark_bytes (th : theme) (m : mark) : bytes :=
+  match m with MSeqs p => seqs th p | MReset => th_reset th end.
+
+Definition tok_bytes (th : theme) (k : tok) : bytes :=
+  match k with T t => t | M m => mark_bytes th m end.
+
+Definition rend (th : theme) (l : list tok) : bytes := flat_map (tok_bytes th) l.
+
+(* the unstyled text of a token sequence *)
+Definition text_of (l : list tok) : bytes :=
+  flat_map (fun k => match k with T t => t | M _ => [] end) l.
+
+Fixpoint flatten (outer : option props) (x : piece) : list tok :=
+  match x with
+  | Plain t => [T t]
+  | Styled p kids =>
+    M (MSeqs p)
+    :: (fix go (l : list piece) : list tok :=
+          match l with [] => [] | k :: r => flatten (Some p) k ++ go r end) kids
+    ++ M MReset
+    :: match outer with None => [] | Some q => [M (MSeqs q)] end
+  end.
+
+Definition flatten_doc (doc : list piece) : list tok := flat_map (flatten None) doc.
+
+(* ---------- sequences that straddle a boundary ---------- *)
+
+(* p is a proper, non-empty prefix of a match: ESC | ESC [ | ESC [ params *)
+Definition partialb (p : bytes) : bool :=
+  match p with
+  | e :: q =>
+    (e =? c_esc) &&
+    match q with
+    | [] => true
+    | b :: ds => (b =? c_lbr) && forallb is_param ds
+    end
+  | [] => false
+  end.
+
+(* q completes the proper prefix p (given partialb p) : p ++ (a prefix of q) is a match *)
+Definition completesb (p q : bytes) : bool :=
+  match sgr_len (p ++ q) with
+  | O => false
+  | n => Nat.ltb (length p) n
+  end.
+
+(* some suffix of a together with some prefix of b is a match, both parts non-empty *)
+Fixpoint spansb (a b : bytes) : bool :=
+  match a with
+  | [] => false
+  | _ :: r => (partialb a && completesb a b) || spansb r b
+  end.
+
+(* a ends inside an incomplete sequence *)
+Fixpoint danglingb (a : bytes) : bool :=
+  match a with
+  | [] => false
+  | _ :: r => partialb a || danglingb r
+  end.
+
+(* every split of the token list at a mark *)
+Fixpoint safe_from (acc : bytes) (l : list tok) : bool :=
+  match l with
+  | [] => true
+  | T t :: r => safe_from (acc ++ t) r
+  | M _ :: r => negb (spansb acc (text_of r)) && safe_from acc r
+  end.
+
+Definition boundary_safeb (doc : list piece) : bool := safe_from [] (flatten_doc doc).
